@@ -13,6 +13,8 @@
 //!   DP <now> <reg>              drop the publication handle
 //!   H <reg> <idx>               keep a clone of images()[idx] of a subscription
 //!   UH <j>                      drop the j-th kept clone
+//!   E <now>                     ON_ERROR with error code 4 (channel endpoint error) for channel status indicator 5 - the one every
+//!                               subscription of this harness is registered on (publications: 2) - + do_work
 //!   X <now>                     Agent::on_close
 //!   ST                          the driver stalls: the harness fills the to-driver ring with keep-alive commands until it refuses
 //!                               even the smallest one; nothing is drained until DR
@@ -314,6 +316,10 @@ fn run_case(line: &str) -> String {
                 w.cycle(a[0] as u64).map(|_| "(Ok (0))".to_string())
             },
             "T" => w.cycle(a[0] as u64).map(|_| "(Ok (0))".to_string()),
+            "E" => {
+                w.c.send_error_response(5, 4, "endpoint");
+                w.cycle(a[0] as u64).map(|_| "(Ok (0))".to_string())
+            },
             "DS" => {
                 set_clock(a[0] as u64);
                 if let Some(pos) = w.subs.iter().position(|(r, _)| *r == a[1]) {
